@@ -5,8 +5,8 @@ package vgirpc
 
 import (
 	"fmt"
+	"math/big"
 	"regexp"
-	"strconv"
 )
 
 // Well-known metadata keys used in the vgi_rpc wire protocol.
@@ -109,18 +109,21 @@ var semverRegex = regexp.MustCompile(`^(0|[1-9]\d*)\.(0|[1-9]\d*)\.(0|[1-9]\d*)$
 // non-negative integers and no leading zeros (except literal “0“). No
 // prereleases (“1.0.0-rc1“) and no build metadata (“1.0.0+foo“).
 // Mirrors Python's vgi_rpc.metadata.parse_version.
-func parseSemver(value string) (major, minor, patch int, err error) {
+func parseSemver(value string) (major, minor, patch *big.Int, err error) {
 	m := semverRegex.FindStringSubmatch(value)
 	if m == nil {
 		//lint:ignore ST1005 message text mirrors Python's parse_version() verbatim for cross-language parity
-		return 0, 0, 0, fmt.Errorf(
+		return nil, nil, nil, fmt.Errorf(
 			"Invalid protocol version %q: expected canonical semver "+
 				"MAJOR.MINOR.PATCH with non-negative integers and no leading zeros "+
 				"(no prereleases or build metadata).",
 			value)
 	}
-	major, _ = strconv.Atoi(m[1])
-	minor, _ = strconv.Atoi(m[2])
-	patch, _ = strconv.Atoi(m[3])
+	// Components are unbounded, as in the Python reference. A machine int
+	// would clamp every component above MaxInt to MaxInt (strconv.Atoi's
+	// range error), making distinct oversized versions compare equal.
+	major, _ = new(big.Int).SetString(m[1], 10)
+	minor, _ = new(big.Int).SetString(m[2], 10)
+	patch, _ = new(big.Int).SetString(m[3], 10)
 	return major, minor, patch, nil
 }
